@@ -260,8 +260,7 @@ def created_facts(A: AdjEnv, S, ct, Tcls, C, ment, u, Lw):
             Schema("created-links-are-new", (Ref, Ref), f3, pair_from=("_links@", "_vertices@", "_universes@"))]
 
 
-# DRAFT (not registered for any property yet)
-@contract("adjlist.load_adj_dict", "adjdict:adj, linktype:cls<=TwoEndedLink=UnDirectedEdge", props=("C11-draft",), shards=6)
+@contract("adjlist.load_adj_dict", "adjdict:adj, linktype:cls<=TwoEndedLink=UnDirectedEdge", props=("C11", "C20"), shards=8)
 def _(c):
     S, ct, a, Tcls = c.S, c.ct, c.adjdict, c.linktype
     A = AdjEnv(a)
@@ -370,3 +369,17 @@ def _(L):
 @REG.loop("adjlist.load_adj_dict", 1)
 def _(L):
     return adj_loop_inv(L, L.env["v1"].term, L.prefix)
+
+
+@contract("adjmatrix.load_adj_matrix", "matrix:any, vertices:any, linktype:cls<=TwoEndedLink=DirectedEdge", props=("C11",),
+          trusted=True, no_body=True)
+def _(c):
+    """NOT VERIFIED (nested lists of arbitrary truthy cells and integer indexing of the side array are outside the symbolic
+    subset as it stands): nobody calls this function, the contract only registers it so that the bounded stand-in of C11
+    (explorer operation `adj_matrix`: random square / malformed matrices over the vertex pool, compared with the statement of
+    C11 through the public API, including `ValueError` before anything is touched) runs on every check."""
+    o = c.outcome(exc="*", label="unspecified")
+    o.result(VOpaque("universe"))
+    for f_ in ("_links", "_vertices", "_universes", "_uid", "_laws", "_applies_to", "memo_has", "memo_val", "stats_has", "dyn_has", "dyn_val",
+               "init_count", "init_args", "_mixed_links", "_cycles", "_multipath", "_multiverse", "_edge_whitelist"):
+        o.loose(f_, lambda new, old, *_: [])
